@@ -13,6 +13,14 @@ from .model import INT_TYPES, ALIASES
 
 FLOAT_POOL = [0x00000000, 0x80000000, 0x3F800000, 0xBF800000, 0x7F800000, 0xFF800000, 0x7F7FFFFF,
               0x00800000, 0x00000001, 0x40490FDB, 0x447A0000, 0xC47A0000]
+def _fb(x):
+    return struct.unpack('<I', struct.pack('<f', x))[0]
+
+
+# Population is an f32 with three named values; everything next to them is an ordinary float
+POP_POOL = [_fb(v) for v in (200.0, 400.0, 600.0)] + \
+           [_fb(v) + d for v in (200.0, 400.0, 600.0) for d in (-1, 1)] + \
+           [_fb(v) for v in (200.5, 200.99, 199.5, 400.25, 400.75, 399.999, 600.5, 600.0625, 599.5, -200.0, -400.0, 0.5, 1.5)]
 WORDS = [b'', b'a', b'Azeroth', b'Blizzard_AuctionUI', 'Vashj’ir'.encode(), 'König'.encode(),
          b'The quick brown fox', '日本語'.encode(), b'x' * 40]
 
@@ -244,6 +252,8 @@ class Gen:
         if ty in ('Bool', 'Bool32'):
             f = s.forced(p)
             return f if f is not None else r.randint(0, 1)
+        if ty == 'Population' and s.forced(p) is None and r.random() < 0.6:
+            return r.choice(POP_POOL)
         if ty in ('f32', 'Population'):
             return s.f32(p)
         if ty == 'DateTime':
@@ -339,8 +349,11 @@ class Gen:
                 if i // 32 == b:
                     del fields[i]
             fields[b * 32] = r.getrandbits(32)
-        # canonical block count: exactly as many blocks as the highest field needs
+        # block count: at least as many blocks as the highest field needs; servers size the mask
+        # by object type, so trailing (and interior) all-zero blocks are ordinary encodings
         n = max(fields) // 32 + 1
+        if r.random() < 0.3:
+            n += r.choice([1, 1, 2, 5])
         return (n, fields)
 
 
